@@ -186,7 +186,7 @@ class TocFetcher:
                          self.port, self.nbr_of_items, self._crc)
 
             cache_data = self._toc_cache.fetch(self._crc)
-            if (cache_data):
+            if (cache_data and self._is_cache_data_usable(cache_data)):
                 self.toc.toc = cache_data
                 logger.info('TOC for port [%s] found in cache' % self.port)
                 self._toc_fetch_finished()
@@ -223,6 +223,17 @@ class TocFetcher:
             else:  # No more variables in TOC
                 self._toc_cache.insert(self._crc, self.toc.toc)
                 self._toc_fetch_finished()
+
+    def _is_cache_data_usable(self, cache_data):
+        """The cache is keyed on the CRC only: make sure that what was found is
+        a table of the kind (log or param) and size that is being fetched"""
+        nbr_of_items = 0
+        for group in cache_data.values():
+            for element in group.values():
+                if not isinstance(element, self.element_class):
+                    return False
+                nbr_of_items += 1
+        return nbr_of_items == self.nbr_of_items
 
     def _request_toc_element(self, index):
         """Request information about a specific item in the TOC"""
